@@ -415,11 +415,17 @@ pub mod io {
 
     pub trait AsyncReadExt {
         fn read_exact<'a>(&'a mut self, buf: &'a mut [u8]) -> Pin<Box<dyn Future<Output = std::io::Result<usize>> + 'a>>;
+        /// like tokio's `read`: returns as soon as at least one byte is available (short reads
+        /// are normal), 0 at end of stream
+        fn read<'a>(&'a mut self, buf: &'a mut [u8]) -> Pin<Box<dyn Future<Output = std::io::Result<usize>> + 'a>>;
     }
     pub trait AsyncWriteExt {
         fn write_all<'a>(&'a mut self, buf: &'a [u8]) -> Pin<Box<dyn Future<Output = std::io::Result<()>> + 'a>>;
     }
     impl AsyncReadExt for TcpStream {
+        fn read<'a>(&'a mut self, buf: &'a mut [u8]) -> Pin<Box<dyn Future<Output = std::io::Result<usize>> + 'a>> {
+            self.read_some(buf)
+        }
         fn read_exact<'a>(&'a mut self, buf: &'a mut [u8]) -> Pin<Box<dyn Future<Output = std::io::Result<usize>> + 'a>> {
             Box::pin(async move {
                 loop {
@@ -431,6 +437,27 @@ pub mod io {
                         return Ok(buf.len());
                     }
                     if closed { return Err(std::io::Error::new(std::io::ErrorKind::UnexpectedEof, "early eof")); }
+                    crate::net::WaitFor(Some(rt::Reason::Stream(id))).await;
+                }
+            })
+        }
+    }
+    impl TcpStream {
+        fn read_some<'a>(&'a mut self, buf: &'a mut [u8]) -> Pin<Box<dyn Future<Output = std::io::Result<usize>> + 'a>> {
+            Box::pin(async move {
+                if buf.is_empty() {
+                    return Ok(0);
+                }
+                loop {
+                    crate::yield_now().await;
+                    let (have, closed, id) = { let p = self.rx.borrow(); (p.buf.len(), p.closed, p.id) };
+                    if have > 0 {
+                        let n = have.min(buf.len());
+                        let mut p = self.rx.borrow_mut();
+                        for b in buf.iter_mut().take(n) { *b = p.buf.pop_front().unwrap(); }
+                        return Ok(n);
+                    }
+                    if closed { return Ok(0); }
                     crate::net::WaitFor(Some(rt::Reason::Stream(id))).await;
                 }
             })
